@@ -9110,6 +9110,14 @@ func (p *parser) visitStmts(stmts []js_ast.Stmt, kind stmtsKind) []js_ast.Stmt {
 				if hoistedRef, ok := p.hoistedRefForSloppyModeBlockFn[s.Fn.Name.Ref]; ok {
 					p.recordDeclaredSymbol(hoistedRef)
 					p.recordUsage(s.Fn.Name.Ref)
+
+					// This is an assignment to the hoisted symbol and to whatever
+					// declaration it has been merged into (e.g. a function with the
+					// same name at the top level of the enclosing function)
+					for ref := hoistedRef; ref != ast.InvalidRef; ref = p.symbols[ref.InnerIndex].Link {
+						p.symbols[ref.InnerIndex].Flags |= ast.CouldPotentiallyBeMutated
+					}
+
 					varDecls = append(varDecls, js_ast.Decl{
 						Binding:    js_ast.Binding{Loc: s.Fn.Name.Loc, Data: &js_ast.BIdentifier{Ref: hoistedRef}},
 						ValueOrNil: js_ast.Expr{Loc: s.Fn.Name.Loc, Data: &js_ast.EIdentifier{Ref: s.Fn.Name.Ref}},
